@@ -115,7 +115,10 @@ def build(case):
         return np.array(cols[0], dtype=float), cols
     mat = np.array(cols, dtype=float).T.reshape(n, len(cols))
     if kind == 'frame':
-        return pd.DataFrame(mat, index=idx, columns=['c%d' % i for i in range(len(cols))]), cols
+        names_ = ['c%d' % i for i in range(len(cols))]
+        if case.get('dupcols') and len(names_) > 1:
+            names_[1] = names_[0]              # a repeated column label (frames glued together without suffixes): columns are still columns
+        return pd.DataFrame(mat, index=idx, columns=names_), cols
     return mat.copy(), cols
 
 
@@ -222,6 +225,7 @@ def run_case(case, ctx):
 SINGLE = ['ffill', 'bfill', 0.0, 7.5, 'nona', 'fnna', 'ffill_na', 'ffill_0']
 LISTS = [['fnna', 'ffill_na'], ['nona', 'ffill_0'], ['fnna', 'ffill_0'], ['nona', 'ffill_na'], ['ffill', 'ffill'], ['bfill', 'bfill'], ['ffill', 'bfill', 'bfill'], ['ffill', 'ffill', 'ffill'], ['ffill', 'bfill'], ['bfill', 'ffill'], ['ffill', 0.0], ['fnna', 'ffill'], ['nona'], ['ffill', 'nona'], ['ffill_na', 'bfill'], ['bfill', 0.0], ['fnna', 'bfill', 'ffill'],
          [0.0, 'ffill'], [0.0, 'bfill'], [7.5, 'ffill', 'bfill'],
+         ['fnna', 'ffill', 'nona'], ['fnna', 0.0, 'nona'], ['fnna', 'bfill', 'nona'], ['nona', 'bfill', 'fnna'],
          ['ffill_0', 0.0], ['ffill_na', 7.5], ['ffill_0', 7.5], ['ffill_na', 0.0, 'ffill'], ['ffill_na', 0.0], ['bfill', 'ffill_0', 7.5]]
 
 
@@ -273,6 +277,8 @@ def gen_random(rng):
         case['intidx'] = intidx
     if kind in ('arr1', 'arr2') and rng.random() < 0.3:
         case['readonly'] = True
+    if kind == 'frame' and rng.random() < 0.12:
+        case['dupcols'] = True
     if limit is not None and rng.random() < 0.25:
         case['np_limit'] = True
     if rng.random() < 0.2:
